@@ -4,6 +4,7 @@ import BeyondVerif.Generated.LambertFnF
 import BeyondVerif.Generated.LeoFnF
 import BeyondVerif.Generated.LtanFnF
 import BeyondVerif.Generated.WalkerFnF
+import BeyondVerif.Generated.BetaFnF
 namespace BeyondVerif.F
 open BeyondVerif.NumFloat
 set_option linter.unusedVariables false
@@ -11,8 +12,9 @@ set_option linter.unusedVariables false
 /-!
 Model of the mission-design helpers of beyond/utils (lambert.py, constellation.py, beta.py,
 interplanetary.py) on top of the scalar formulas translated from the source
-(Generated/LambertFn, LeoFn, LtanFn, WalkerFn).  Hand-written here: 3-vector algebra, the two
-loops of `_lambert`, the generator loops of the Walker classes, `beta` and `bplane`.
+(Generated/LambertFn incl. the direction / way selection `lamDthetaSrc`, LeoFn, LtanFn, WalkerFn, BetaFn).  Hand-written here:
+3-vector algebra, the two loops of `_lambert`, the generator loops of the Walker classes, the J2 propagator object as a
+state machine, and `bplane`.
 -/
 
 structure V3 where
@@ -32,16 +34,11 @@ end V3
 
 /-! ## `_lambert` -/
 
-/-- transfer angle: `arccos(r0.r1 / (|r0||r1|))`, replaced by `2π - …` according to the requested
-direction and the sign of the z component of `r0 × r1` -/
+/-- transfer angle: `arccos(r0.r1 / (|r0||r1|))`, replaced by `2π - …` according to the requested direction and the sign
+of the z component of `r0 × r1` — the head of `_lambert` as translated from the source (`lamDthetaSrc`, Generated/LambertFn):
+which comparison is strict and what happens at `cr[2] = 0` is whatever the source says -/
 def lamDtheta (r0 r1 : V3) (prograde : Bool) : R :=
-  let nr0 := V3.norm r0
-  let nr1 := V3.norm r1
-  let crz := (V3.cross r0 r1).z
-  let d := acos (V3.dot r0 r1 / (nr0 * nr1))
-  if prograde = true ∧ crz < 0 then 2 * pi - d
-  else if prograde = false ∧ crz ≥ 0 then 2 * pi - d
-  else d
+  lamDthetaSrc r0.x r0.y r0.z r1.x r1.y r1.z prograde
 
 /-- `z_low = -inf; while _F(z) < 0: z_low = z; z += 0.05` — unbounded in the code, hence the fuel;
 `none` = fuel exhausted.  Returns `(z_low, z)`; `z_low = none` stands for `-inf` (the scan did not move). -/
@@ -102,6 +99,79 @@ def lambert (r0 r1 : V3) (duration mu : R) (prograde : Bool) (fuel : Nat) : Opti
     let vv := lamVel nr0 nr1 A zc.1 mu r0 r1
     some (vv.1, vv.2, zc.1, zc.2)
 
+/-! ## the J2 propagator object behind `Orbit.propagate` / `Orbit.iter` (propagators/j2.py)
+
+`Orbit.propagate(date)` hands the orbit to the propagator (`self.propagator.orbit = self`: the getter returns the
+propagator's private copy, which never `is` the user's orbit, so the setter runs at every call), then calls
+`J2.propagate`.  The setter (`j2OrbitSetter`, Generated/LeoFn, read from the source) stores a copy of the user's orbit
+in mean elements; `J2.propagate` reads that copy only.  Modelled as a state machine over the user's orbit (six mean
+elements and an epoch in seconds, which the user may change in place) and the propagator's private copy. -/
+
+structure MeanEl where
+  a : R
+  e : R
+  i : R
+  raan : R
+  argp : R
+  M : R
+  t : R
+
+/-- `orb[k] = v` on an orbit in `keplerian_mean` form (an index ≥ 6 raises IndexError in numpy: no-op here, never generated) -/
+def MeanEl.set (o : MeanEl) (k : Nat) (v : R) : MeanEl :=
+  match k with
+  | 0 => { o with a := v }
+  | 1 => { o with e := v }
+  | 2 => { o with i := v }
+  | 3 => { o with raan := v }
+  | 4 => { o with argp := v }
+  | 5 => { o with M := v }
+  | _ => o
+
+/-- `J2.propagate(timedelta)` on the private copy `o`: `new = orbit[:] + [0,0,0,dΩ,dω,dM+n]·Δt; new[3:] %= 2π; new.date = date` -/
+def j2Advance (mu re j2 : R) (o : MeanEl) (dt : R) : MeanEl :=
+  let n := meanMotion mu o.a
+  let rates := j2Rates n re o.a o.e o.i j2
+  ⟨o.a, o.e, o.i, fmod (o.raan + rates.1 * dt) (2 * pi), fmod (o.argp + rates.2.1 * dt) (2 * pi),
+   fmod (o.M + (rates.2.2 + n) * dt) (2 * pi), o.t + dt⟩
+
+inductive J2Op where
+  /-- `orb[k] = v` -/
+  | setEl (k : Nat) (v : R)
+  /-- `orb.date = t` -/
+  | setDate (t : R)
+  /-- `orb.propagate(timedelta(seconds=dt))` -/
+  | prop (dt : R)
+
+/-- the user's orbit and what the propagator object holds between two calls -/
+structure J2Obj where
+  user : MeanEl
+  priv : Option MeanEl
+
+/-- the setter of `J2.orbit`: the private copy is replaced by (a copy of) the orbit handed over, whatever it held before -/
+def j2Setter (_priv : Option MeanEl) (orbit : MeanEl) : Option MeanEl := some orbit
+
+def J2Obj.step (mu re j2 : R) (s : J2Obj) : J2Op → J2Obj × Option MeanEl
+  | .setEl k v => ({ s with user := s.user.set k v }, none)
+  | .setDate t => ({ s with user := { s.user with t := t } }, none)
+  | .prop dt =>
+    let priv := j2Setter s.priv s.user
+    ({ s with priv := priv }, priv.map (fun o => j2Advance mu re j2 o dt))
+
+/-- the values returned along a history of operations on ONE orbit object (one entry per `prop`) -/
+def J2Obj.run (mu re j2 : R) : J2Obj → List J2Op → List MeanEl
+  | _, [] => []
+  | s, op :: ops =>
+    match J2Obj.step mu re j2 s op with
+    | (s', some out) => out :: J2Obj.run mu re j2 s' ops
+    | (s', none) => J2Obj.run mu re j2 s' ops
+
+/-- the user's orbit after a history (in-place writes only; propagations return new objects) -/
+def J2Obj.userAfter (u : MeanEl) : List J2Op → MeanEl
+  | [] => u
+  | .setEl k v :: ops => J2Obj.userAfter (u.set k v) ops
+  | .setDate t :: ops => J2Obj.userAfter { u with t := t } ops
+  | .prop _ :: ops => J2Obj.userAfter u ops
+
 /-! ## Walker constellations (`iter_raan`, `iter_nu`, `iter_fleet`) -/
 
 /-- `iter_fleet` of WalkerStar (`delta = false`) / WalkerDelta (`delta = true`) for `total/planes/spacing`:
@@ -119,14 +189,10 @@ def walkerFleet (delta : Bool) (total planes spacing : Nat) (raan0 : R) : List (
 
 /-! ## beta angle -/
 
-/-- `np.clip(x, lo, hi)` (a NaN passes through, as in numpy) -/
-def clipR (x lo hi : R) : R := if x < lo then lo else if x > hi then hi else x
-
-/-- `beta`: `arcsin(clip(w.ref / (|w||ref|), -1, 1))` with `w = p × v` (clip: fix 1d112fc) -/
+/-- `beta`: `arcsin(clip(w.ref / (|w||ref|), -1, 1))` with `w = p × v` (clip: fix 1d112fc) — the arithmetic of `beta` as
+translated from the source (`betaSrc`, `clipR`: Generated/BetaFn); closed form: `betaAngle_eq` (Props/C19Geom) -/
 def betaAngle (p v ref : V3) : R :=
-  let w := V3.cross p v
-  let sin_beta := V3.dot w ref / (V3.norm w * V3.norm ref)
-  asin (clipR sin_beta (-1) 1)
+  betaSrc p.x p.y p.z v.x v.y v.z ref.x ref.y ref.z
 
 /-! ## B-plane -/
 
